@@ -95,7 +95,8 @@ CHECKS["C06"] = ("SseWsgi.tla, StreamWsgi.tla, SseAsgi.tla, TraceSseAsgi.tla, St
     "Every interleaving of producer, relay, consumer and close() at the grain of queue/future/yield operations for generators of "
     "0..2 (thorough 3) items with an exception at any item; ASGI: all item-delay / ping / disconnect-tick / exception-point / "
     "send-cost combinations in the bounds, with the return deadline, single cleanup, no pending task and in-order delivery "
-    "checked per event.",
+    "checked per event; send() raising at its k-th call (start, any body, the final one) crossed with producer speed, producer "
+    "failure and disconnect (SendFailureReported, NothingAfterFailure).",
     "Trusted: TLC, harness/sched.py (threads move only at its control points), harness/vloop.py, asyncio's FIFO ready queue. "
     "Task-level ASGI models: SseAsgi.tla (event streams, three tasks) and StreamAsgiTask.tla (plain streams, two tasks).",
     "DESIGN.md 5 C06")
